@@ -355,10 +355,12 @@ def sumifs(sum_range, *args):
     if isinstance(coords, str):
         return coords
 
-    return sum(_numerics(
+    data = _numerics(
         (sum_range[r][c] for r, c in coords),
         keep_bools=True
-    ))
+    )
+    # an error value in a selected cell is the result
+    return data if isinstance(data, str) else sum(data)
 
 
 def sumproduct(*args):
